@@ -202,6 +202,36 @@ func (c *Ctx) tokenHandlerGates(th tokenHandler, fn *ssa.Function) {
 			effs = append(effs, eff{call.(ssa.Instruction), "Save"})
 		}
 	}
+	// a deferred closure that changes the account runs on every exit after the
+	// defer statement: it is an effect at the point where it is installed
+	for _, b := range fn.Blocks {
+		for _, in := range b.Instrs {
+			df, ok := in.(*ssa.Defer)
+			if !ok {
+				continue
+			}
+			mc, ok := df.Call.Value.(*ssa.MakeClosure)
+			if !ok {
+				continue
+			}
+			cl, _ := mc.Fn.(*ssa.Function)
+			if cl == nil {
+				continue
+			}
+			changes := false
+			for _, call := range Calls(cl) {
+				if _, isW := storerWrites[Callee(call)]; isW {
+					changes = true
+				}
+				if cc := call.Common(); cc.IsInvoke() && strings.HasPrefix(cc.Method.Name(), "Put") && c.isUserType(cc.Value.Type()) {
+					changes = true
+				}
+			}
+			if changes {
+				effs = append(effs, eff{df, "deferred " + FuncName(cl)})
+			}
+		}
+	}
 	if len(effs) == 0 {
 		r.Unknown("C05.gates", name, "effects", "-", "no mutation of the looked-up user found")
 	}
